@@ -3,7 +3,7 @@ CHECK_DEADLOCK FALSE
 CONSTANTS
   MaxLen = 3
   MaxTok = 2
-  Kinds = {"Ref", "Slice", "Str", "Vec", "String", "Box", "VecIntoIter", "ChunkIter", "RawIter", "Splice", "Drain", "DrainFilter", "StrDrain", "LeakRef", "BumpSlice", "BumpSliceMut", "BumpStr", "BoxedSlice", "IntoInnerRef"}
+  Kinds = {"Ref", "Slice", "Str", "Vec", "String", "Box", "VecIntoIter", "ChunkIter", "RawIter", "Splice", "Drain", "DrainFilter", "StrDrain", "LeakRef", "BumpSlice", "BumpSliceMut", "BumpStr", "BoxedSlice", "IntoInnerRef", "BoxSliceFromArray", "BoxArrayTryFrom", "BoxTryFromErr", "PinBox", "PinFromBox", "BumpRef", "StringIntoBytes", "StringFromUtf8", "FromUtf8Err", "ChunkItem", "VecMacro", "FormatMacro", "CollectIn", "AllocWith", "TryAllocOk", "AllocTryWith", "SliceFillIter", "ApiVec", "ApiBox"}
 INVARIANTS
   EmitInv
   OrdinaryAccepted
